@@ -45,6 +45,7 @@ SYMBOLS = {
     "F": (-12.0, -2.0, 0.0, 0.5),  # frost: maximum temperature below every crop's base temperature
     "Q": (2.0, 17.0, 0.0, 2.0),    # chilly: a few tenths to 2 degree days for most crops (between 0 and a raised GDD_lo)
     "G": (10.0, 22.0, 4.0, 3.0),    # exactly 16 degree days a day for Tbase 0 / Tupp >= 22 (sums that land exactly on a thermal threshold)
+    "E": (12.0, 24.0, 4.0, 4.0),     # exactly 10 degree days a day for Tbase 8 (MaizeGDD): sums land exactly on round thermal thresholds
     "P": (14.0, 30.0, 4.0, 8.0),     # a shower smaller than the day's evaporative demand
 }
 WORDS = {
@@ -55,7 +56,7 @@ WORDS = {
     "warm": "WWWWWR",
     "showers": "NRNMNRN",
     "hot": "WWHWWDR",
-    "coolnights": "WKWWKRWKH", "scorch": "TTTWTTR", "chilly": "NQNNQQNRQ", "steady16": "G", "drizzle": "DDDDDDDDP",
+    "coolnights": "WKWWKRWKH", "scorch": "TTTWTTR", "chilly": "NQNNQQNRQ", "steady16": "G", "steady10": "E", "drizzle": "DDDDDDDDP",
 }
 
 
@@ -274,6 +275,17 @@ def make_irr(irs):
         for d, x in irs["default_schedule_after_inplace_fill"]:
             other.Schedule.loc[len(other.Schedule)] = [pd.Timestamp(d.replace("/", "-")), float(x)]
         return IrrigationManagement(irrigation_method=3, **kw)
+    if irs.get("default_smt_after_inplace_edit"):
+        # history: another threshold strategy built WITHOUT thresholds was tuned in place (irr.SMT[i] = x) before this one was created
+        other = IrrigationManagement(irrigation_method=1)
+        for i in range(4):
+            other.SMT[i] = float(irs["default_smt_after_inplace_edit"])
+        kw.pop("SMT", None)
+        return IrrigationManagement(irrigation_method=1, **kw)
+    if irs.get("smt_series") and "SMT" in kw:
+        # the targets as a pandas Series whose integer labels are a permutation of 0..3 (e.g. the result of sort_values): positions count
+        ser = pd.Series([float(x) for x in kw["SMT"]])
+        kw["SMT"] = ser.sort_values(ascending=False) if irs["smt_series"] == "permuted" else ser
     if irs.get("schedule") is not None:
         sch = irs["schedule"]
         df = pd.DataFrame(
